@@ -189,6 +189,20 @@ func genInventory(c *ctx) (string, error) {
 	fmt.Fprintf(&sb, "/-- every assignment whose target is (reached through) a package-level variable -/\ndef globalWrites : List String := %s\n\n", leanStrListNL(globalWrites))
 	fmt.Fprintf(&sb, "/-- in the parse entry points and the extension methods: assignments through a parameter or the receiver, as \"pkg.func: root: target\" -/\ndef sharedWrites : List String := %s\n\n", leanStrListNL(sharedWrites))
 	fmt.Fprintf(&sb, "/-- ParseRealtime asks a PerMessageExtension for a fresh instance per message -/\ndef parseRealtimeUsesForMessage : Bool := %v\n\n", perMessageFresh)
+	fmt.Fprintf(&sb, "/-- ParseRealtime re-points its options parameter to a local copy (`x := *opts; opts = &x`) before any assignment through it -/\ndef parseRealtimeWritesOnlyToCopy : Bool := %v\n\n", copiesOpts(c))
+	kinds := map[string]bool{}
+	for _, ps := range panicSites {
+		parts := strings.SplitN(ps, ": ", 2)
+		if len(parts) == 2 {
+			kinds[parts[0]+": "+strings.SplitN(parts[1], " ", 2)[0]] = true
+		}
+	}
+	var kl []string
+	for k := range kinds {
+		kl = append(kl, k)
+	}
+	sort.Strings(kl)
+	fmt.Fprintf(&sb, "/-- the panic-capable sites by function and kind -/\ndef panicSiteKinds : List String := %s\n\n", leanStrListNL(kl))
 	sb.WriteString("end Gtfs.Gen.Inventory\n")
 	return sb.String(), nil
 }
@@ -212,4 +226,33 @@ func leanStrListNL(xs []string) string {
 		q[i] = fmt.Sprintf("  %q", x)
 	}
 	return "[\n" + strings.Join(q, ",\n") + "]"
+}
+
+// copiesOpts: in ParseRealtime, `X := *opts` then `opts = &X` occur before the first assignment
+// whose target goes through opts.
+func copiesOpts(c *ctx) bool {
+	p := c.pkg("")
+	fd := findFunc(p, "ParseRealtime")
+	if fd == nil {
+		return false
+	}
+	copied, repointed, ok := "", false, true
+	for _, st := range fd.Body.List {
+		ast.Inspect(st, func(n ast.Node) bool {
+			as, isAs := n.(*ast.AssignStmt)
+			if !isAs || len(as.Lhs) != 1 || len(as.Rhs) != 1 {
+				return true
+			}
+			l, r := exprString(c, as.Lhs[0]), exprString(c, as.Rhs[0])
+			if as.Tok == token.DEFINE && r == "*opts" {
+				copied = l
+			} else if l == "opts" && copied != "" && r == "&"+copied {
+				repointed = true
+			} else if strings.HasPrefix(l, "opts.") && !repointed {
+				ok = false
+			}
+			return true
+		})
+	}
+	return repointed && ok
 }
